@@ -479,7 +479,7 @@ fn random_stmt(rng: &mut Rng, d: Dialect) -> S {
                 t.fks.push(random_fk(rng, &format!("fk{i}")));
             }
             if rng.chance(1, 3) {
-                t.checks.push(("c0".into(), rng.range(0, 5)));
+                t.checks.push(("c0".into(), if rng.chance(1, 3) { 100 + rng.range(0, 5) } else { rng.range(0, 5) }));
             }
             if d == Dialect::Mysql {
                 if rng.chance(1, 3) {
